@@ -104,7 +104,7 @@ def run_many(fn, items, workers=None):
 # ----------------------------------------------------------------------------------------
 # TLC
 
-FAIL_RE = re.compile(r'^<<"FAIL", (\d+), \{(.*)\}>>\s*$')
+FAIL_RE = re.compile(r'^"FAIL\|(\d+)\|\{(.*)\}"\s*$')
 NOTE_RE = re.compile(r'^<<"NOTE", (.*)>>\s*$')
 
 
@@ -162,7 +162,7 @@ def tlc(work, module, cfg, env=None, workers=1, timeout=900, heap="3g", name=Non
     for line in r.out.splitlines():
         m = FAIL_RE.match(line)
         if m:
-            names = [x.strip().strip('"') for x in m.group(2).split(",") if x.strip()]
+            names = [x.strip().replace('\\"', '').strip('"') for x in m.group(2).split(",") if x.strip()]
             r.fails.append((int(m.group(1)), names))
             continue
         m = NOTE_RE.match(line)
